@@ -29,6 +29,7 @@ type Spec struct {
 	Assume   []string
 	Kinds    []string // run kinds executed as separate batches ("" = single)
 	Race     bool     // thorough tier also runs a -race batch
+	Corpus   bool     // needs the regenerated schema corpus
 }
 
 type Tier struct {
@@ -59,6 +60,7 @@ type Job struct {
 	Repeat   int     `json:"repeat"`
 	StepCap  int64   `json:"step_cap"`
 	FirstIdx int     `json:"first_index"`
+	OnlyCell int     `json:"only_cell"`
 }
 
 type Failure struct {
@@ -264,8 +266,9 @@ func runWorkers(bin string, jobs []Job, dir string, env []string, timeout time.D
 			data, rerr := os.ReadFile(j.Out)
 			if err != nil || rerr != nil {
 				lg, _ := os.ReadFile(logf)
+				pg, _ := os.ReadFile(j.Out + ".progress")
 				mu.Lock()
-				crashed = append(crashed, fmt.Sprintf("worker %d (%s): %v\n%s", j.Worker, j.Kind, err, tail(string(lg), 3000)))
+				crashed = append(crashed, fmt.Sprintf("worker %d (%s): %v\nPROGRESS %s\n%s", j.Worker, j.Kind, err, strings.TrimSpace(strings.SplitN(string(pg), "\n", 2)[0]), tail(string(lg), 3000)))
 				mu.Unlock()
 				return
 			}
@@ -368,7 +371,7 @@ func runCheck(prop, tier, replayPath string) int {
 		}
 	}
 
-	b, err := PrepareBuild(buildOpts{Tag: prop, NeedRoot: spec.Binary == "root", NeedTB: spec.Binary == "tb", Race: rf != nil && rf.Race})
+	b, err := PrepareBuild(buildOpts{Tag: prop, NeedRoot: spec.Binary == "root", NeedTB: spec.Binary == "tb", Race: rf != nil && rf.Race, Corpus: spec.Corpus})
 	defer b.Cleanup()
 	if err != nil {
 		fmt.Fprintln(os.Stderr, "BUILD FAILED (exit 2, not a violation):", err)
@@ -414,14 +417,51 @@ func runCheck(prop, tier, replayPath string) int {
 		crashedAll = append(crashedAll, crashed...)
 	}
 	if len(crashedAll) > 0 {
-		// A worker died. That can be the code under test (fatal runtime error)
-		// or the harness; report as harness trouble with the log so it is
-		// looked at, never silently.
-		fmt.Fprintln(os.Stderr, "WORKER CRASHED (exit 2):")
-		for _, c := range crashedAll {
-			fmt.Fprintln(os.Stderr, c)
+		// A worker process died (fatal runtime error such as a stack overflow or
+		// "concurrent map writes", which cannot be recovered in-process). Re-run
+		// the run that was in flight alone: if the fresh process dies again the
+		// crash belongs to that seed and is a violation with a seed-mode replay
+		// file; otherwise it is harness trouble.
+		confirmed := 0
+		for ci, c := range crashedAll {
+			var kind string
+			var n int
+			if i := strings.Index(c, "PROGRESS "); i >= 0 {
+				fmt.Sscanf(c[i+9:], "%s %d", &kind, &n)
+			}
+			if kind == "" || ci >= 2 {
+				continue
+			}
+			job := Job{Prop: prop, Tier: tier, Mode: "search", Seed: seed, Worker: 0, Stride: 1, TmpDir: tmp, Samples: 0, MaxViol: 1, ShrinkS: 5, StepCap: t.StepCap}
+			if kind == "cell" {
+				job.OnlyCell = n + 1
+			} else {
+				job.Count = 1
+				job.FirstIdx = n
+			}
+			job.Kind = fmt.Sprintf("crashcheck%d", ci)
+			_, again, werr := runWorkers(bin, []Job{job}, b.Dir, env, 5*time.Minute)
+			if werr == nil && len(again) > 0 {
+				confirmed++
+				v := Violation{Check: prop + "/process-crash", Msg: "the worker process died while executing this run (fatal runtime error): " + firstLine(tail(again[0], 1500)),
+					Seed: seed, Index: -1, Cell: -1, Kind: "seed:" + kind}
+				if kind == "cell" {
+					v.Cell = n
+				} else {
+					v.Index = n
+				}
+				v.Trace = strings.Split(tail(again[0], 2500), "\n")
+				a.violations = append(a.violations, v)
+			}
 		}
-		return 2
+		if confirmed == 0 {
+			fmt.Fprintln(os.Stderr, "WORKER CRASHED and the crash did not reproduce on the run in flight (exit 2, harness trouble):")
+			for _, c := range crashedAll {
+				fmt.Fprintln(os.Stderr, c)
+			}
+			return 2
+		}
+		a.stopped = append(a.stopped, fmt.Sprintf("%d worker(s) died; their remaining seeds were not run", len(crashedAll)))
 	}
 
 	// violations -> replay files, known findings
@@ -452,6 +492,10 @@ func runCheck(prop, tier, replayPath string) int {
 		path := filepath.Join(verifDir, "replays", fmt.Sprintf("%s-%d-%d.json", prop, seed, len(vioLines)))
 		rfile := ReplayFile{Property: prop, Check: v.Check, Message: v.Msg, Kind: v.Kind, Seed: seed, RunSeed: v.RunSeed, Index: v.Index, Cell: v.Cell,
 			Mode: "choices", Choices: v.Choices, OrigLen: v.OrigLen, Shrink: v.ShrinkRun, Trace: v.Trace}
+		if strings.HasPrefix(v.Kind, "seed:") {
+			rfile.Mode = "seed"
+			rfile.Kind = ""
+		}
 		data, _ := json.MarshalIndent(rfile, "", " ")
 		os.WriteFile(path, data, 0644)
 		vioLines = append(vioLines, fmt.Sprintf("VIOLATION property=%s replay=%s", prop, path))
@@ -483,8 +527,13 @@ func doReplay(spec Spec, b *Build, bin, tmp string, env []string, rf *ReplayFile
 	job := Job{Prop: spec.Prop, Tier: "replay", Mode: "replay", Seed: rf.Seed, Worker: 0, Stride: 1, Kind: rf.Kind, TmpDir: tmp, Replay: rf.Choices, Samples: 1}
 	if rf.Mode == "seed" {
 		job.Mode = "search"
-		job.Count = 1
-		job.FirstIdx = rf.Index
+		job.Replay = nil
+		if rf.Cell >= 0 {
+			job.OnlyCell = rf.Cell + 1
+		} else {
+			job.Count = 1
+			job.FirstIdx = rf.Index
+		}
 	}
 	outs, crashed, err := runWorkers(bin, []Job{job}, b.Dir, env, 10*time.Minute)
 	if err != nil {
@@ -525,6 +574,18 @@ func doReplay(spec Spec, b *Build, bin, tmp string, env []string, rf *ReplayFile
 	}
 	fmt.Println("replay did not reproduce a violation on this tree")
 	return 0
+}
+
+func firstLine(s string) string {
+	for _, l := range strings.Split(s, "\n") {
+		if strings.Contains(l, "fatal error") || strings.Contains(l, "panic:") || strings.Contains(l, "runtime:") {
+			return strings.TrimSpace(l)
+		}
+	}
+	if i := strings.Index(s, "\n"); i > 0 {
+		return s[:i]
+	}
+	return s
 }
 
 func specNames() []string {
@@ -595,6 +656,10 @@ func writeEvidence(spec Spec, tier string, seed uint64, a *agg, b *Build, wall f
 		"out_of_scope_observations": a.notes,
 		"build_wall_s":           b.Wall,
 		"stopped_early":          a.stopped,
+	}
+	if spec.Corpus {
+		cov["generated_types_in_registry"] = b.Registry
+		cov["regenerated_packages_dropped_because_they_do_not_compile"] = b.Dropped
 	}
 	if len(cells) > 0 {
 		cov["protocol_cells"] = cells
